@@ -177,7 +177,7 @@ class Ctx:
                 os.replace(tmp, path)
                 # keep the cache small: only the most recent entries per handler/table survive
                 olds = sorted((o for o in CACHE.glob(f"ats-{which}-{variant}-*.pkl") if o != path), key=lambda o: o.stat().st_mtime, reverse=True)
-                for old in olds[11:]:
+                for old in olds[max(1, int(os.environ.get("CFDPSA_CACHE_KEEP", "12"))) - 1:]:
                     try:
                         old.unlink()
                         old.with_suffix(".lock").unlink()
